@@ -108,8 +108,35 @@ ARROWS_D = 'vV▼▾'
 ARROWS_U = '^▲▴'
 
 
+PAGE_TOKENS = [('-',), ('--',), ('|',), ('+',), ('ab',), ('k',), ('+-+',), ('->',), ('<-',), ('*-',), ('o',), ('()',), ('_',), ('/',), ('\\',),
+               ('~~',), ('::',), ('=',), ("'",), ('.',), ('\u00e9\u65e5',), ('\u25b6',), ('\u25cb',), ('(_)',), ('.-.', "'-'"), ('+-+', '+-+'), ('|', 'v'),
+               ('/', '\\'), ('.', '|'), ('x9',), ('-->',), ('!',), ('\u2502',), ('\u250c\u2510', '\u2514\u2518')]
+
+
+def page(rng, groups):
+    """a big sparse page: about `groups` small figures and words that touch nothing (size thresholds in the
+    grouping / merging code are crossed by the number of groups, not by the size of one figure)"""
+    cols = rng.randint(4, 18)
+    rows = []
+    k = 0
+    while k < groups:
+        band = ['', '', '']
+        for x in range(cols):
+            t = rng.choice(PAGE_TOKENS) if rng.random() < 0.85 and k < groups else ()
+            if t:
+                k += 1
+            for y in range(3):
+                band[y] += (t[y] if y < len(t) else '').ljust(6)
+        while band and not band[-1].strip():
+            band.pop()
+        rows += [b.rstrip() for b in band] + ['']
+    return rows
+
+
 def diagram(rng, circles, allow_quotes=False, allow_braces=False, small=False):
     """(kind, rows) - rows never contain a legend; quotes/braces only when allowed"""
+    if not small and rng.random() < 0.025:
+        return 'page', page(rng, rng.choice([20, 40, 70, 140, 300]))
     q = rng.random()
     if q < 0.45:
         alpha = rng.choice([FULL, ASCII_DRAW + 'ab', ASCII_DRAW + UNI_DRAW + UNI_MORE + 'abé日', "-|+.'`,/\\ab", "()_-.'`,/\\|"])
